@@ -82,6 +82,8 @@ class Engine {
     // true if a violating run may have damaged the process (no sanitizer in this
     // build): the worker then restarts instead of carrying the damage along
     virtual bool restart_after_violation() const { return false; }
+    // wall-clock backstop per run, for builds without a step budget
+    virtual unsigned hang_timeout_s() const { return 60; }
     // extra engine report (json object body without braces) appended to STATS
     virtual std::string report_json() { return ""; }
 };
